@@ -205,6 +205,78 @@ theorem sunionTail_nf (st : Bool) (d : Bytes) (o : List (Bytes × Nat × List By
 theorem handleSUnion_nf (st : Bool) (c : Ctx) (cmd : List Bytes) : (handleSUnion st c cmd).NoFlushAll := by
   unfold handleSUnion; nf2 <;> exact sunionTail_nf _ _ _
 
+
+/-! ### sorted-set handlers -/
+
+theorem withZSet_nf {α : Type} (cmd : List Bytes) (a : Bool) (p : PRes α) (r : Res) (m : Bytes → Bytes)
+    (k : Bytes → KMap Flt → α → Prog Res) (h : ∀ x y z, (k x y z).NoFlushAll) : (withZSet cmd a p r m k).NoFlushAll := by
+  unfold withZSet; nf2; exact h _ _ _
+theorem collectZSets_nf (ks : List (Bytes × Bool)) : ∀ (k : List (KMap Flt) → Prog Res), (∀ x, (k x).NoFlushAll) →
+    (collectZSets ks k).NoFlushAll := by
+  induction ks with
+  | nil => intro k h; exact h _
+  | cons x r ih =>
+    intro k h
+    obtain ⟨key, e⟩ := x
+    unfold collectZSets
+    split
+    · exact ih k h
+    · refine nf_call _ _ (by simp) ?_
+      intro vs
+      split
+      · trivial
+      · apply ih; intro acc; exact h _
+theorem zmpopLoop_nf (c : Ctx) (n : Nat) (mx : Bool) (l : List (Bytes × Bool)) : (zmpopLoop c n mx l).NoFlushAll := by
+  induction l with
+  | nil => unfold zmpopLoop; trivial
+  | cons x r ih =>
+    obtain ⟨key, e⟩ := x
+    unfold zmpopLoop
+    nf2 <;> exact ih
+theorem zaddApply_nf (key : Bytes) (e : Bool) (ms : List ZM) (o : ZAddOpts) : (zaddApply key e ms o).NoFlushAll := by
+  unfold zaddApply; nf2
+theorem handleZAdd_nf (c : Ctx) (cmd : List Bytes) : (handleZAdd c cmd).NoFlushAll := by
+  unfold handleZAdd; nf2 <;> exact zaddApply_nf _ _ _ _
+theorem handleZCard_nf (c : Ctx) (cmd : List Bytes) : (handleZCard c cmd).NoFlushAll := by
+  unfold handleZCard; apply withZSet_nf; intros; nf2
+theorem handleZCount_nf (c : Ctx) (cmd : List Bytes) : (handleZCount c cmd).NoFlushAll := by
+  unfold handleZCount; apply withZSet_nf; intros; nf2
+theorem handleZLexCount_nf (c : Ctx) (cmd : List Bytes) : (handleZLexCount c cmd).NoFlushAll := by
+  unfold handleZLexCount; apply withZSet_nf; intros; nf2
+theorem handleZMScore_nf (c : Ctx) (cmd : List Bytes) : (handleZMScore c cmd).NoFlushAll := by
+  unfold handleZMScore; apply withZSet_nf; intros; nf2
+theorem handleZScore_nf (c : Ctx) (cmd : List Bytes) : (handleZScore c cmd).NoFlushAll := by
+  unfold handleZScore; apply withZSet_nf; intros; nf2
+theorem handleZRem_nf (c : Ctx) (cmd : List Bytes) : (handleZRem c cmd).NoFlushAll := by
+  unfold handleZRem; apply withZSet_nf; intros; nf2
+theorem handleZRandMember_nf (c : Ctx) (cmd : List Bytes) : (handleZRandMember c cmd).NoFlushAll := by
+  unfold handleZRandMember; apply withZSet_nf; intros; nf2
+theorem handleZRank_nf (c : Ctx) (cmd : List Bytes) : (handleZRank c cmd).NoFlushAll := by
+  unfold handleZRank; apply withZSet_nf; intros; nf2
+theorem handleZRemRangeByScore_nf (c : Ctx) (cmd : List Bytes) : (handleZRemRangeByScore c cmd).NoFlushAll := by
+  unfold handleZRemRangeByScore; apply withZSet_nf; intros; nf2
+theorem handleZRemRangeByRank_nf (c : Ctx) (cmd : List Bytes) : (handleZRemRangeByRank c cmd).NoFlushAll := by
+  unfold handleZRemRangeByRank; apply withZSet_nf; intros; nf2
+theorem handleZRemRangeByLex_nf (c : Ctx) (cmd : List Bytes) : (handleZRemRangeByLex c cmd).NoFlushAll := by
+  unfold handleZRemRangeByLex; apply withZSet_nf; intros; nf2
+theorem handleZPop_nf (c : Ctx) (cmd : List Bytes) : (handleZPop c cmd).NoFlushAll := by
+  unfold handleZPop; apply withZSet_nf; intros; nf2
+theorem handleZRange_nf (c : Ctx) (cmd : List Bytes) : (handleZRange c cmd).NoFlushAll := by
+  unfold handleZRange; apply withZSet_nf; intros; nf2
+theorem handleZRangeStore_nf (c : Ctx) (cmd : List Bytes) : (handleZRangeStore c cmd).NoFlushAll := by
+  unfold handleZRangeStore; nf2
+theorem handleZIncrBy_nf (c : Ctx) (cmd : List Bytes) : (handleZIncrBy c cmd).NoFlushAll := by
+  unfold handleZIncrBy; nf2
+theorem handleZDiff_nf (st : Bool) (c : Ctx) (cmd : List Bytes) : (handleZDiff st c cmd).NoFlushAll := by
+  unfold handleZDiff; nf2 <;> (apply collectZSets_nf; intro _; nf2)
+theorem zCombineTail_nf (i st ws : Bool) (d a : Bytes) (rows : List (Bytes × Bool × Val × Int)) :
+    (zCombineTail i st ws d a rows).NoFlushAll := by
+  unfold zCombineTail; nf2
+theorem handleZCombine_nf (i st : Bool) (c : Ctx) (cmd : List Bytes) : (handleZCombine i st c cmd).NoFlushAll := by
+  unfold handleZCombine; nf2 <;> exact zCombineTail_nf _ _ _ _ _ _
+theorem handleZMPop_nf (c : Ctx) (cmd : List Bytes) : (handleZMPop c cmd).NoFlushAll := by
+  unfold handleZMPop; nf2 <;> exact zmpopLoop_nf _ _ _ _
+
 theorem handleSelect_nf (c : Ctx) (cmd : List Bytes) : (handleSelect c cmd).NoFlushAll := by unfold handleSelect; nf
 theorem handleSwapDB_nf (c : Ctx) (cmd : List Bytes) : (handleSwapDB c cmd).NoFlushAll := by unfold handleSwapDB; nf
 theorem handlePing_nf (c : Ctx) (cmd : List Bytes) : (handlePing c cmd).NoFlushAll := by unfold handlePing; nf
@@ -291,7 +363,16 @@ theorem table_noFlushAll : ∀ e ∈ handlerTable, ∀ (c : Ctx) (cmd : List Byt
     fun c cmd _ => handleSIsMember_nf c cmd, fun c cmd _ => handleSMembers_nf c cmd, fun c cmd _ => handleSMIsMember_nf c cmd,
     fun c cmd _ => handleSMove_nf c cmd, fun c cmd _ => handleSPop_nf c cmd, fun c cmd _ => handleSRandMember_nf c cmd,
     fun c cmd _ => handleSRem_nf c cmd, fun c cmd _ => handleSUnion_nf _ c cmd, fun c cmd _ => handleSUnion_nf _ c cmd,
-    fun c cmd _ => handleSelect_nf c cmd, fun c cmd _ => handleSwapDB_nf c cmd, fun c cmd _ => handlePing_nf c cmd, fun c cmd _ => handleEcho_nf c cmd⟩
+    fun c cmd _ => handleSelect_nf c cmd, fun c cmd _ => handleSwapDB_nf c cmd, fun c cmd _ => handlePing_nf c cmd, fun c cmd _ => handleEcho_nf c cmd,
+    fun c cmd _ => handleZAdd_nf c cmd, fun c cmd _ => handleZCard_nf c cmd, fun c cmd _ => handleZCount_nf c cmd,
+    fun c cmd _ => handleZDiff_nf _ c cmd, fun c cmd _ => handleZDiff_nf _ c cmd, fun c cmd _ => handleZIncrBy_nf c cmd,
+    fun c cmd _ => handleZCombine_nf _ _ c cmd, fun c cmd _ => handleZCombine_nf _ _ c cmd,
+    fun c cmd _ => handleZMPop_nf c cmd, fun c cmd _ => handleZMScore_nf c cmd, fun c cmd _ => handleZPop_nf c cmd, fun c cmd _ => handleZPop_nf c cmd,
+    fun c cmd _ => handleZRandMember_nf c cmd, fun c cmd _ => handleZRank_nf c cmd, fun c cmd _ => handleZRank_nf c cmd,
+    fun c cmd _ => handleZRem_nf c cmd, fun c cmd _ => handleZScore_nf c cmd, fun c cmd _ => handleZRemRangeByLex_nf c cmd,
+    fun c cmd _ => handleZRemRangeByRank_nf c cmd, fun c cmd _ => handleZRemRangeByScore_nf c cmd,
+    fun c cmd _ => handleZLexCount_nf c cmd, fun c cmd _ => handleZRange_nf c cmd, fun c cmd _ => handleZRangeStore_nf c cmd,
+    fun c cmd _ => handleZCombine_nf _ _ c cmd, fun c cmd _ => handleZCombine_nf _ _ c cmd⟩
 
 theorem progOf_noFlushAll (c : Ctx) (cmd : List Bytes) (p : Prog Res)
     (h : progOf c cmd = some p) (hn : ¬ eqFold (cmd.headD []) (b "flushall") = true) :
